@@ -7,8 +7,8 @@ namespace CalicoVerif.C13
 
 /-- One fact about the Go code: it touches `size` bytes at `off` for C member `path` of `st`.
 `mode`: `exact` (offset and size must equal the C member's), `within` (same start, not longer than
-the C member: a small value kept in a wider little-endian scalar), `offset` (offset only: the
-policy-program builder's constants), `bit` (bit-field: `off`/`size` in bits), and for `path = ""`
+the C member: a small value kept in a wider little-endian scalar), `inside` (a chunk lying inside a
+wider C member), `offset` (offset only: constants the policy-program builder defines but never uses), `bit` (bit-field: `off`/`size` in bits), and for `path = ""`
 (the whole structure) `exact` / `atmost` (map value large enough) / `mirror-size` (reported, see
 Props). -/
 structure GoRow where
@@ -43,6 +43,7 @@ def rowOk (ss : Structs) (r : GoRow) : Bool :=
       if r.mode == "exact" then o == 8 * r.off && n == 8 * r.size
       else if r.mode == "bit" then o == r.off && n == r.size
       else if r.mode == "within" then o == 8 * r.off && decide (8 * r.size ≤ n)
+      else if r.mode == "inside" then decide (o ≤ 8 * r.off) && decide (8 * r.off + 8 * r.size ≤ o + n)
       else if r.mode == "offset" then o == 8 * r.off
       else false
 
